@@ -159,7 +159,8 @@ static void c07_finish(const c07_case *c, int exitcode) {
 /* parse a case line (fields split in place); returns 0 on failure */
 static int c07_parse(char *line, c07_case *c) {
   char *f[16 + C07_MAXF]; int nf = 0;
-  for (char *t = strtok(line, " \r\n"); t && nf < 16 + C07_MAXF; t = strtok(0, " \r\n")) f[nf++] = t;
+  if (!strncmp(line, "case=", 5)) line += 5;      /* the case= field of a DISAGREE/ORACLE line can be replayed as it is */
+  for (char *t = strtok(line, " |\r\n"); t && nf < 16 + C07_MAXF; t = strtok(0, " |\r\n")) f[nf++] = t;
   if (nf < 13) return 0;
   c->proto = f[0][0]; c->databytes = atol(f[1]); c->now = atol(f[2]);
   for (int i = 0; i < NENV; i++) c->env[i] = f[3 + i];
